@@ -28,8 +28,8 @@ CHECKS = {
    note="shuttle 0.9.3 (sequentially consistent interleavings); std::sync / std::thread of uci/mod.rs, util/sync.rs, time_control.rs re-pointed by the cfg-guarded shim lines; go infinite modelled as a blocking wait at the poll (hook H1); preemption-bounded, not unbounded",
    design="5/C05"),
  "C06": dict(
-   technique="explicit-state exploration for the round trip (every state of the position sweep) and exhaustive enumeration of malformed inputs (all rank-width vectors with <=2-3 deviations, all single edits, all short strings) under catch_unwind",
-   text="(a) For every position of the sweep families from_fen(to_fen(g)) equals g including key and accumulators, and the reference writer's canonical text survives read-then-write; (b) enumerated malformed strings: the reader returns Ok or Err and never unwinds, and a board field with a rank that is not eight squares wide (judged by an independent width computation) is never accepted.",
+   technique="explicit-state exploration for the round trip (every state of the position sweep) and exhaustive enumeration of malformed inputs (all rank-width vectors with <=2-3 deviations, all single edits, all short strings, all material extremes) under catch_unwind",
+   text="(a) For every position of the sweep families from_fen(to_fen(g)) equals g including key and accumulators, and the reference writer's canonical text survives read-then-write; (b) enumerated malformed strings: the reader returns Ok or Err and never unwinds, and a board field with a rank that is not eight squares wide (judged by an independent width computation) is never accepted; FEN-MATERIAL: every man letter on the first n squares for n = 0..64 (with and without kings) and all two-letter boards split at each rank.",
    design="5/C06"),
  "C07": dict(
    technique="complete enumeration: all 107,648 (square, relevant-blocker subset) cases with irrelevant-bit variants, all leaper/pawn/between arguments, against coordinate-loop geometry",
@@ -44,12 +44,12 @@ CHECKS = {
    text="The stop flag is behind a seam; for every search of the set the number of polls P of the unstopped run is measured and all k in 1..P are executed (production polling frequency). After the first true observation: no further node visit, no further poll, a legal move, the given position untouched, and follow-up searches on the same tables return legal moves and legal lines.",
    design="5/C09"),
  "C10": dict(
-   technique="explicit-state exploration (BFS positions with a previous move) x exhaustive enumeration of picker configurations with <=2 (thorough 3) simultaneous deviations, stream compared as a multiset with the reference legal moves",
+   technique="explicit-state exploration (BFS positions with a previous move) x exhaustive enumeration of picker configurations with <=2 (thorough 3) simultaneous deviations, plus the position-shape families F-PROMO, F-EP and F-CORNER (both kings fixed, three further men on all squares) with <=1 deviation, stream compared as a multiset with the reference legal moves",
    text="For every position of the BFS families and every configuration of hash move (any legal move), killer slots (filled through try_push: legal quiets, captures, promotions and moves that are not legal here), counter move (keyed by the real previous move), history pattern and ply with at most D deviations from the default: the stream of MovePicker::next equals the legal moves each once; the captures-only stream is duplicate-free, legal and contains all captures and queen promotions.",
    design="5/C10"),
  "C11": dict(
    technique="exhaustive path enumeration (no state merging) from small seeds with start clocks {0,3,97..100} against a history oracle; complete material families for the material rule",
-   text="Every node of every path up to length 5 (thorough 7) from 10 seeds x 6 start clocks: is_repeated_position() and the fifty-move verdict compared with the list of identities since the last capture/pawn move (both en-passant conventions; unasserted where they disagree). Material rule on all kings+0/1 positions, a complete kings+3-minors slice and every state of the sweep.",
+   text="Every node of every path up to length 5 (thorough 7) from 15 seeds (incl. rook-pawn double steps beside an enemy pawn on the opposite edge and all four rooks at home with all rights) x up to 6 start clocks: is_repeated_position() and the fifty-move verdict compared with the list of identities since the last capture/pawn move (both en-passant conventions; unasserted where they disagree). Material rule on all kings+0/1 positions, a complete kings+3-minors slice and every state of the sweep.",
    design="5/C11"),
  "C12": dict(
    technique="exhaustive enumeration of sessions (all sequences up to length 3 over searches / ucinewgame / set hash) on independently built states under four clock behaviours; differential oracle <H, ucinewgame, P> = <P on fresh> from table generations 0/253/254/255; the real command loop; separate optimised processes; and exhaustive preemption-bounded schedule enumeration (tvc-sched) of ucinewgame racing the finishing search thread",
@@ -110,6 +110,7 @@ m = {
  "not_applicable": [],
  "notes": "All checks: ./check <ID> <quick|thorough>; exit 2 = machinery failure. Known findings: /verif/known_findings.jsonl. Design: /verif/DESIGN.md.",
 }
+ND = {"C01","C02","C03","C06","C07","C09","C10","C11","C14","C15","C16","C18","C19","C20"}
 for pid in ALL:
     if pid in CHECKS:
         c = CHECKS[pid]
@@ -122,7 +123,7 @@ for pid in ALL:
           "engine": c.get("engine", "tvc"),
           "level_claimed": {"category": "model_checking", "text": c["text"], "design_ref": c["design"]},
           "level_note": c.get("note", TRUST),
-          "technique": c["technique"],
+          "technique": c["technique"] + ("; the quick tier is executed a second time by a build of the harness without debug assertions and overflow checks (family PROFILE-NDEBUG) and merged" if pid in ND else ""),
         })
     else:
         m["not_applicable"].append({"property_id": pid, "reason": NOT_YET})
